@@ -116,7 +116,8 @@ def make_body(thread: int, runner: str, prog: int, nevals: int):
 _ALONE: Dict[Tuple, Tuple[Any, int]] = {}
 _HOT: Dict[Tuple, List[int]] = {}
 _HOT_NAMES: Dict[Tuple, List[str]] = {}
-HOT_FUNCTIONS = {"evaluate", "transpile", "program", "parse", "result"}
+_HOT_FIRST: Dict[Tuple, List[int]] = {}
+HOT_FUNCTIONS = {"evaluate", "transpile", "program", "parse", "result", "compile", "__init__", "new_activation", "clone"}
 
 
 def alone(thread: int, runner: str, prog: int, nevals: int) -> Tuple[Any, int]:
@@ -128,6 +129,14 @@ def alone(thread: int, runner: str, prog: int, nevals: int) -> Tuple[Any, int]:
         # steps (1-based) at which this thread, running alone, is inside one of the functions that touch process-wide state
         _HOT[key] = [i + 1 for i, nm in enumerate(names) if nm in HOT_FUNCTIONS or nm.startswith(("function_", "macro_", "tz_", "get"))]
         _HOT_NAMES[key] = [nm for nm in names if nm in HOT_FUNCTIONS or nm.startswith(("function_", "macro_", "tz_", "get"))]
+        lines = getattr(sched.run_alone, "last_step_lines", [])
+        seen: set = set()
+        first: List[int] = []
+        for i, (nm, ln) in enumerate(zip(names, lines)):
+            if (nm in HOT_FUNCTIONS or nm.startswith(("function_", "macro_", "tz_", "get"))) and ln not in seen:
+                seen.add(ln)
+                first.append(i + 1)
+        _HOT_FIRST[key] = first  # the first execution of every distinct source line of a state-touching function
     return _ALONE[key]
 
 
@@ -277,6 +286,22 @@ def campaign(run: common.Run) -> None:
                               "schedule": st.lists(st.tuples(st.integers(0, 1000), st.integers(0, 3)), min_size=1, max_size=max_pre)}, 250 if q else 1500, seed_salt=1)
 
 
+def hot_single_preemption(run: common.Run, pairs: List[Tuple[Tuple, Tuple]], report) -> int:
+    """One preemption at the first execution of EVERY distinct source line thread A runs inside a state-touching function (constructors included); B then
+    runs to completion and A resumes."""
+    n = 0
+    for a, b in pairs:
+        alone(0, *a)
+        for s in _HOT_FIRST.get((0,) + tuple(a), []):
+            check_schedule(run, [a, b], [(s, 1)], report, fractions=False)
+            run.event("hot-single-preemption-schedule")
+            n += 1
+    return n
+
+
+HOT_PAIRS = [(("C", 0, 2), ("I", 3, 2)), (("I", 5, 2), ("C", 8, 2)), (("C", 13, 2), ("C", 15, 2)), (("I", 21, 2), ("I", 22, 2))]
+
+
 def exhaustive_single_preemption(run: common.Run, pairs: List[Tuple[Tuple, Tuple]], report, shard: Optional[Tuple[int, int]] = None, stride: int = 1) -> int:
     n = 0
     for pi, (a, b) in enumerate(pairs):
@@ -314,8 +339,9 @@ def main(run: common.Run) -> None:
         run.event("replayed")
     if run.tier == "quick":
         # every 16th single-preemption point of the first two pairs, then generated schedules, then a short stress
-        n = exhaustive_single_preemption(run, PAIRS[:3], run.fail, stride=8)
+        n = exhaustive_single_preemption(run, PAIRS[:2], run.fail, stride=8)
         run.extra["single_preemption_runs"] = n
+        run.extra["hot_single_preemption_runs"] = hot_single_preemption(run, HOT_PAIRS, run.fail)
         run.extra["double_preemption_runs"] = double_preemption(run, DOUBLE_PAIRS[: 3], run.fail, 2, offset=run.seed)
         campaign(run)
         stress(run, 15, run.fail)
